@@ -297,6 +297,10 @@ class CallMixin:
             cur = nxt
         for k in node.keywords:
             if k.arg is None:
+                # **kwargs forwarding of an opaque mapping: carried along, never inspected
+                vs = [self.ev1(k.value, s) for s, _, _ in cur]
+                if all(isinstance(v, Val) and v.sort == OPAQUE for v in vs):
+                    continue
                 raise Unsupported(node, "**kwargs")
             nxt = []
             for s, acc, kw in cur:
@@ -365,6 +369,10 @@ class CallMixin:
             s_old = St(dict(st.env), st.pre.heap, [], None, st.pre.ghost)
             return [(st, self.ev1(node.args[0], s_old))]
         args = [self.ev1(a, st) for a in node.args]
+        if name == "append":
+            return [(st, self.append_list(st, args[0], self.coerce(args[1], args[0].sort.elem, node)))]
+        if name == "cat":
+            return [(st, self.concat_lists(st, args[0], args[1]))]
         if name == "store":
             return [(st, Val(args[0].sort, (z3.Store(args[0].z, self.coerce(args[1], args[0].sort.key, node).z,
                                                      self.coerce(args[2], args[0].sort.val, node).z),)))]
@@ -812,6 +820,28 @@ class CallMixin:
                 return [(st, VNONE)]
             if name == "copy":
                 return [(st, recv)]
+            if name == "clear":
+                self.store_lvalue(tgt, st, list_empty(s.elem))
+                return [(st, VNONE)]
+            if name == "popleft":
+                cur = self.named(st, self.load_lvalue(tgt, st))
+                n = cur.t[0]
+                out = []
+                s_empty = st.copy().assume(n <= 0)
+                if self.feasible(s_empty):
+                    self.raised.append(Outcome("raise", s_empty, ExcVal("IndexError")))
+                st.assume(n > 0)
+                head = list_get(cur, z3.IntVal(0))
+                rest = fresh(cur.sort, "rest")
+                i = z3.Int(fresh_name("pi"))
+                st.assume(rest.t[0] == n - 1)
+                for ra, ca in zip(rest.t[1:], cur.t[1:]):
+                    st.assume(z3.ForAll([i], z3.Implies(z3.And(0 <= i, i < n - 1), z3.Select(ra, i) == z3.Select(ca, i + 1)),
+                              patterns=[z3.Select(ra, i)]))
+                    st.assume(z3.ForAll([i], z3.Implies(z3.And(1 <= i, i < n), z3.Select(ra, i - 1) == z3.Select(ca, i)),
+                              patterns=[z3.Select(ca, i)]))
+                self.store_lvalue(tgt, st, rest)
+                return [(st, head)]
         if isinstance(s, SetSort):
             if name == "copy":
                 return [(st, recv)]
